@@ -549,11 +549,17 @@ func (af *AdaptationField) SetHasAdaptationFieldExtension(value bool) error {
 		return err
 	}
 	delta := 1 * af.bitDelta(5, 0x01, value)
-	err := af.resizeAF(af.adaptationExtensionStart(), delta)
+	if delta < 0 {
+		delta = -af.adaptationExtensionLength() // remove the length byte and the data
+	}
+	start := af.adaptationExtensionStart()
+	err := af.resizeAF(start, delta)
 	if err != nil {
 		return err
 	}
-	af[af.adaptationExtensionStart()] = 0
+	if delta > 0 {
+		af[start] = 0 // zero length by default
+	}
 	af.setBit(5, 0x01, value)
 	return nil
 }
